@@ -1,5 +1,6 @@
 //! C16 correspondence: scenario trees × injection points → the real `TestRunner` (child process `trun`, stand-in
-//! docker/pack; closures that panic at a chosen step; the k-th external command failing; a tool disappearing from PATH).
+//! docker/pack; closures that panic at a chosen step; the k-th external command failing; fault scripts failing any set of
+//! sub-commands by position / container; a tool disappearing from PATH).
 //! Observation: how the process ended, the command log (random names renamed by first occurrence), what is left in TMPDIR.
 #[path = "../lct/mod.rs"]
 mod lct;
@@ -89,17 +90,34 @@ fn describe(tree: &Tree, bcfgs: &[BCfg], inj: &str) -> (Vec<(String, String)>, b
     let status = if kind == "z" { base_inj.split(':').nth(2).unwrap_or("7") } else { "-" };
     // (flavour 3 — unparsable `docker port` output — turns every exposed-port look-up into one more panic source)
     let sources = sources + if flavour == "3" { ports } else { 0 };
-    let in_scope = match kind { "-" => sources <= 1, "z" | "nfp" => sources == 0, _ => false };
-    let tags = vec![
-        (s("inj"), s(match kind { "-" => "none", "z" => "kth-command-nonzero", "nfp" => "pack-not-found", _ => "docker-not-found" })),
+    // mirrors `DriverC16.inScope`: judged unless a `docker rm` is made to fail while something else goes wrong (for `z:k` that
+    // depends on which command turns out to be the k-th) or docker is missing altogether
+    let rules = if kind == "f" { parse_fault_rules(&base_inj[2..]).unwrap_or_default() } else { vec![] };
+    let spares_rm = rules.iter().all(|r| r.kind != "rm" && r.kind != "any");
+    let in_scope = match kind {
+        "-" | "nfp" => "1",
+        "z" => if sources == 0 { "1" } else { "unless-kth-is-docker-rm" },
+        "f" => if spares_rm || (sources == 0 && rules.len() == 1 && matches!(rules[0].sel, FaultSel::At(_))) { "1" } else { "0" },
+        _ => "0",
+    };
+    let mut tags = vec![
+        (s("inj"), s(match kind { "-" => "none", "z" => "kth-command-nonzero", "nfp" => "pack-not-found", "f" => "fault-script", _ => "docker-not-found" })),
         (s("panic"), s(if sources == 0 { "none" } else if sources > 1 { "several" } else if tp == 1 { "test-closure" } else if cp == 1 { "container-closure" } else { "unexposed-port" })),
         (s("shape"), if shapes.is_empty() { s("build-only") } else { shapes.join("+") }),
         (s("depth"), depth.to_string()),
         (s("builds"), ch.len().to_string()),
         (s("cfg"), s(if intrinsic { "panics-by-itself" } else { "proceeds" })),
-        (s("in_quantifier"), s(if in_scope { "1" } else { "0" })),
+        (s("in_quantifier"), s(in_scope)),
         (s("status"), s(status)), (s("outputs"), s(flavour)),
     ];
+    if kind == "f" {
+        let mut kinds: Vec<&str> = rules.iter().map(|r| match r.kind.as_str() { "rd" => "start", "ln" | "lf" | "lg" => "logs", "ex" | "po" => "exec-or-port", "rr" | "sb" | "pb" => "pack-or-attached-run", "ri" | "vr" => "rmi-or-volume-remove", "nr" => "all-but-docker-rm", _ => "docker-rm-too" }).collect(); kinds.sort(); kinds.dedup();
+        let mut sels: Vec<&str> = rules.iter().map(|r| match r.sel { FaultSel::All => "always", FaultSel::At(_) => "at-position", FaultSel::From(_) => "from-position-on", FaultSel::Ctr(_) => "for-container" }).collect(); sels.sort(); sels.dedup();
+        tags.push((s("fault_kinds"), kinds.join("+")));
+        tags.push((s("fault_sel"), sels.join("+")));
+        tags.push((s("fault_rules"), rules.len().to_string()));
+        tags.push((s("fault_with_panic_step"), s(if sources > 0 { "1" } else { "0" })));
+    }
     (tags, kind != "-" || sources > 0 || intrinsic)
 }
 
@@ -116,7 +134,11 @@ fn generate(tier: &str, seed: u64, emit: &mut dyn FnMut(Case)) {
     let mut push = |bcfgs: &[BCfg], tree: &Tree, inj: String| {
         counter += 1;
         let inj = if inj.contains('@') { inj } else {
-            let base = if inj.starts_with("z:") && inj.matches(':').count() == 1 { format!("{inj}:{}", STATUSES[counter % STATUSES.len()]) } else { inj };
+            let base = if inj.starts_with("z:") && inj.matches(':').count() == 1 { format!("{inj}:{}", STATUSES[counter % STATUSES.len()]) }
+                else if let Some(script) = inj.strip_prefix("f:") {
+                    // rules without an explicit status get one, rotating
+                    format!("f:{}", script.split('+').enumerate().map(|(i, r)| if r.matches('.').count() == 1 { format!("{r}.{}", STATUSES[(counter + i) % STATUSES.len()]) } else { r.to_string() }).collect::<Vec<_>>().join("+"))
+                } else { inj };
             format!("{base}@{}", (counter / STATUSES.len()) % 3)
         };
         let (tags, nt) = describe(tree, bcfgs, &inj);
@@ -232,6 +254,70 @@ fn generate(tier: &str, seed: u64, emit: &mut dyn FnMut(Case)) {
         let inj = match r.below(8) { 0 => s("-"), 1 => format!("nfp:{}", 1 + r.below(3)), 2 => format!("nfd:{}", 1 + r.below(6)), _ => format!("z:{}:{}", 1 + r.below(m), r.pick(&STATUSES)) };
         let inj = format!("{inj}@{}", r.below(4));
         push(&cfgs, &tree, inj);
+    }
+    // 6. fault scripts: several commands failing in one run, selected by sub-command and by position / container, crossed with
+    //    closures that panic (or not) while a container context is alive
+    let st = |c: &[&str]| Act::Start(0, c.iter().map(|x| cact_sym(x)).collect());
+    let sh = || Act::Shell(s("true"));
+    let mut ftrees: Vec<Vec<Act>> = vec![
+        vec![st(&["X"])], vec![st(&["LN", "X"])], vec![st(&["LN"])], vec![st(&["LW"])], vec![st(&["E"])], vec![st(&["P"])], vec![st(&["Pu"])],
+        vec![st(&["E", "LN", "X"])], vec![st(&[])], vec![st(&["LN"]), Act::Panic], vec![st(&["X"]), sh()], vec![sh(), st(&["P", "X"])],
+        vec![st(&["LN"]), st(&["X"])], vec![Act::Sbom, st(&["LW", "X"])], vec![Act::Rebuild(1, vec![st(&["X"])])],
+        vec![st(&["LN"]), Act::Rebuild(1, vec![st(&["E", "X"])])], vec![Act::RebuildCtx(1, vec![st(&["Pu"])])],
+        vec![st(&[]), Act::Rebuild(1, vec![sh(), Act::Rebuild(0, vec![st(&["LN", "X"])])])], vec![Act::Panic], vec![st(&["P", "LN"])],
+    ];
+    if thorough {
+        for c in cact_lists("quick") { let t = vec![Act::Start(0, c)]; ftrees.push(t.clone()); ftrees.push(vec![st(&["E"]), Act::Rebuild(1, t)]); }
+    }
+    // never-created containers (`docker run` and every command addressing that container fail, `docker rm --force` of a missing
+    // container succeeds), a daemon that lost its logging driver, commands failing for good, cleanup commands whose failure
+    // libcnb-test ignores, everything but `docker rm` failing
+    let static_scripts = [
+        "lg.a", "ln.a", "lf.a", "ex.a", "po.a", "rd.a", "rr.a", "sb.a", "pb.a", "ri.a", "vr.a", "ri.a+vr.a",
+        "lg.c1", "lg.c2", "ex.c1", "po.c1", "rd.c1", "rd.c2", "rd.c1+lg.c1+ex.c1+po.c1", "rd.c2+lg.c2+ex.c2+po.c2",
+        "lg.a+ex.a+po.a", "nr.a", "lg.a+ri.a+vr.a", "rd.a+lg.a",
+        // outside the quantifier (docker rm failing as well): compared with the model only
+        "rm.a", "any.a", "rm.c1", "lg.a+rm.a",
+    ];
+    for (ti, acts) in ftrees.iter().enumerate() {
+        let tree = Tree { cfg: 0, acts: acts.clone() };
+        let m = max_cmds(acts) + 1;
+        for sc in static_scripts { push(&base, &tree, format!("f:{sc}")); }
+        for k in 1..=m {
+            push(&base, &tree, format!("f:lg.g{k}"));
+            push(&base, &tree, format!("f:nr.f{k}"));
+            if thorough || ti % 3 == 0 { push(&base, &tree, format!("f:any.f{k}")); push(&base, &tree, format!("f:rm.g{k}+lg.a")); }
+        }
+        // two commands failing, neither of them a `docker rm`: every pair of positions
+        if thorough || ti < 10 { for k1 in 1..=m { for k2 in k1 + 1..=m { push(&base, &tree, format!("f:nr.g{k1}+nr.g{k2}")); } } }
+        if thorough && ti < 20 { for k1 in 1..=m { for k2 in k1 + 1..=m { for k3 in k2 + 1..=m { push(&base, &tree, format!("f:nr.g{k1}+nr.g{k2}+nr.g{k3}")); } } } }
+    }
+    // 7. seeded random chains (as in 5) with a random fault script of 1-3 rules
+    let n = if thorough { 2500 } else { 250 };
+    for i in 0..n {
+        let mut r = Rng::for_case(seed ^ 0x16c, i);
+        let nb = 1 + r.below(3) as usize;
+        let mut cfgs = vec![];
+        for _ in 0..nb {
+            let (e, p) = *r.pick(&[(true, false), (true, false), (true, false), (true, false), (false, true), (true, true)]);
+            cfgs.push(bcfg(e, p, r.chance(1, 2), rel(), 'x'));
+        }
+        let mut acts: Vec<Act> = vec![];
+        for b in (0..nb).rev() {
+            let mut mine: Vec<Act> = (0..1 + r.below(3)).map(|_| r.pick(&all).clone()).collect();
+            if b + 1 < nb { mine.push(if r.chance(1, 3) { Act::RebuildCtx(b + 1, acts) } else { Act::Rebuild(b + 1, acts) }); }
+            acts = mine;
+        }
+        let tree = Tree { cfg: 0, acts };
+        let m = max_cmds(&tree.acts) as u64 + 1;
+        let nrules = 1 + r.below(3);
+        let rules: Vec<String> = (0..nrules).map(|_| {
+            // mostly rules that spare `docker rm` (inside the quantifier)
+            let kind = if r.chance(1, 10) { *r.pick(&["rm", "any"]) } else { *r.pick(&["pb", "sb", "rd", "rr", "ln", "lf", "lg", "lg", "ex", "po", "ri", "vr", "nr"]) };
+            let sel = match r.below(4) { 0 => s("a"), 1 => format!("g{}", 1 + r.below(m)), 2 => format!("f{}", 1 + r.below(m)), _ => format!("c{}", 1 + r.below(3)) };
+            format!("{kind}.{sel}.{}", r.pick(&STATUSES))
+        }).collect();
+        push(&cfgs, &tree, format!("f:{}@{}", rules.join("+"), r.below(4)));
     }
 }
 
